@@ -4717,4 +4717,166 @@ theorem iget_pairlits (g : ℤ) (S : ISeq) (t : ℤ) : (0 ≤ t ∧ t < ilen (pa
 
 end PairLits
 
+
+/-! # Twenty-fourth batch: `imem`, `ipos`, `imemp`, `cntstar`, `combs_apseq_range` -/
+
+/-- `x` occurs in the list `S` -/
+def imem (S : ISeq) (x : ℤ) : Prop := x ∈ S
+instance (S : ISeq) (x : ℤ) : Decidable (imem S x) := by unfold imem; infer_instance
+/-- the first position of `x` in `S` (`len S` if there is none) -/
+def ipos (S : ISeq) (x : ℤ) : ℤ := ((S.findIdx (fun y => y == x) : ℕ) : ℤ)
+/-- `x` occurs among the first `n` entries of `S` -/
+def imemp (S : ISeq) (n x : ℤ) : Prop := x ∈ S.take n.toNat
+
+/-- (i1) `imem(S, x) -> And(0 <= ipos(S, x), ipos(S, x) < ilen(S), iget(S, ipos(S, x)) == x)` -/
+theorem imem_witness (S : ISeq) (x : ℤ) :
+    imem S x → (0 ≤ ipos S x ∧ ipos S x < ilen S ∧ iget S (ipos S x) = x) := by
+  intro h
+  obtain ⟨h0, h1, h2⟩ := findIdx_witness S (fun y => y == x) ⟨x, h, by simp⟩
+  exact ⟨h0, h1, beq_iff_eq.mp h2⟩
+
+/-- (i2) `And(0 <= k, k < ilen(S), iget(S, k) == x) -> imem(S, x)` -/
+theorem imem_of_get (S : ISeq) (k x : ℤ) : (0 ≤ k ∧ k < ilen S ∧ iget S k = x) → imem S x := by
+  rintro ⟨h0, h1, rfl⟩
+  exact iget_mem S k h0 h1
+
+/-- (p0) `n <= 0 -> Not(imemp(S, n, x))` -/
+theorem imemp_zero (S : ISeq) (n x : ℤ) : n ≤ 0 → ¬ imemp S n x := by
+  intro h
+  have : n.toNat = 0 := by omega
+  simp [imemp, this]
+
+/-- (p1) `And(0 <= n, n < ilen(S)) -> imemp(S, n + 1, x) == Or(imemp(S, n, x), iget(S, n) == x)` -/
+theorem imemp_succ (S : ISeq) (n x : ℤ) : (0 ≤ n ∧ n < ilen S) →
+    (imemp S (n + 1) x ↔ (imemp S n x ∨ iget S n = x)) := by
+  rintro ⟨h0, h1⟩
+  unfold ilen at h1
+  have hlt : n.toNat < S.length := by omega
+  have hk : (n + 1).toNat = n.toNat + 1 := by omega
+  unfold imemp iget
+  rw [hk, List.take_add_one, List.getElem?_eq_getElem hlt, List.getD_eq_getElem?_getD,
+    List.getElem?_eq_getElem hlt]
+  simp only [Option.toList_some, List.mem_append, List.mem_singleton, Option.getD_some]
+  constructor
+  · rintro (h | h)
+    · exact Or.inl h
+    · exact Or.inr h.symm
+  · rintro (h | h)
+    · exact Or.inl h
+    · exact Or.inr h.symm
+
+/-- (p2) `And(1 <= n, n <= ilen(S)) -> imemp(S, n, x) == Or(imemp(S, n - 1, x), iget(S, n - 1) == x)` -/
+theorem imemp_pred (S : ISeq) (n x : ℤ) : (1 ≤ n ∧ n ≤ ilen S) →
+    (imemp S n x ↔ (imemp S (n - 1) x ∨ iget S (n - 1) = x)) := by
+  rintro ⟨h1, h2⟩
+  have := imemp_succ S (n - 1) x ⟨by omega, by omega⟩
+  rwa [sub_add_cancel] at this
+
+/-- (p3) `n >= ilen(S) -> imemp(S, n, x) == imem(S, x)` -/
+theorem imemp_full (S : ISeq) (n x : ℤ) : n ≥ ilen S → (imemp S n x ↔ imem S x) := by
+  intro h
+  unfold ilen at h
+  unfold imemp imem
+  rw [List.take_of_length_le (by omega)]
+
+def cntstarN (a : Asg) (off : ℤ) (C : CSeq) (i : ℤ) : ℕ → ℤ
+  | 0 => 0
+  | m + 1 => cntstarN a off C i m +
+      (if imem (cget C (m : ℤ)) i ∧ lit_true a (off + 1 + (m : ℤ)) then 1 else 0)
+
+/-- the number of `0 ≤ j < t` with `imem(cget(C, j), i)` and `lit_true(a, off + 1 + j)` -/
+def cntstar (a : Asg) (off : ℤ) (C : CSeq) (i t : ℤ) : ℤ := cntstarN a off C i t.toNat
+
+/-- (c0) `t == 0 -> cntstar(a, off, C, i, t) == 0` -/
+theorem cntstar_zero (a : Asg) (off : ℤ) (C : CSeq) (i t : ℤ) : t = 0 → cntstar a off C i t = 0 := by
+  rintro rfl; rfl
+
+/-- (c1) `t >= 0 -> cntstar(a, off, C, i, t + 1) == cntstar(a, off, C, i, t) +
+    If(And(imem(cget(C, t), i), lit_true(a, off + 1 + t)), 1, 0)` -/
+theorem cntstar_succ (a : Asg) (off : ℤ) (C : CSeq) (i t : ℤ) : t ≥ 0 →
+    cntstar a off C i (t + 1) = cntstar a off C i t +
+      (if imem (cget C t) i ∧ lit_true a (off + 1 + t) then 1 else 0) := by
+  intro h
+  have h1 : (t + 1).toNat = t.toNat + 1 := by omega
+  have h2 : ((t.toNat : ℕ) : ℤ) = t := by omega
+  unfold cntstar
+  rw [h1, cntstarN, h2]
+
+/-- (c2) `t >= 1 -> cntstar(a, off, C, i, t) == cntstar(a, off, C, i, t - 1) +
+    If(And(imem(cget(C, t - 1), i), lit_true(a, off + 1 + (t - 1))), 1, 0)` (literal form of specs.py) -/
+theorem cntstar_pred (a : Asg) (off : ℤ) (C : CSeq) (i t : ℤ) : t ≥ 1 →
+    cntstar a off C i t = cntstar a off C i (t - 1) +
+      (if imem (cget C (t - 1)) i ∧ lit_true a (off + 1 + (t - 1)) then 1 else 0) := by
+  intro h
+  have := cntstar_succ a off C i (t - 1) (by omega)
+  rwa [sub_add_cancel] at this
+
+/-- (c2) with the literal argument simplified: `off + 1 + (t - 1) = off + t` -/
+theorem cntstar_pred' (a : Asg) (off : ℤ) (C : CSeq) (i t : ℤ) : t ≥ 1 →
+    cntstar a off C i t = cntstar a off C i (t - 1) +
+      (if imem (cget C (t - 1)) i ∧ lit_true a (off + t) then 1 else 0) := by
+  intro h
+  have := cntstar_pred a off C i t h
+  have e : off + 1 + (t - 1) = off + t := by ring
+  rwa [e] at this
+
+/-- (r) `And(k >= 0, 0 <= i, i < clen(C), 0 <= p, p < ilen(cget(C, i))) ->
+    And(s <= iget(cget(C, i), p), iget(cget(C, i), p) < s + n)`, `C = combs(apseq(s, n), k)` -/
+theorem combs_apseq_range (s n k i p : ℤ) :
+    (k ≥ 0 ∧ 0 ≤ i ∧ i < clen (combs (apseq s n) k) ∧ 0 ≤ p ∧
+      p < ilen (cget (combs (apseq s n) k) i)) →
+    (s ≤ iget (cget (combs (apseq s n) k) i) p ∧ iget (cget (combs (apseq s n) k) i) p < s + n) := by
+  rintro ⟨_, hi0, hi1, hp0, hp1⟩
+  have hm : cget (combs (apseq s n) k) i ∈ combsLex k.toNat (apseq s n) :=
+    cget_mem (combs (apseq s n) k) i ⟨hi0, hi1⟩
+  rw [mem_combsLex] at hm
+  have := hm.1.subset (iget_mem _ p hp0 hp1)
+  obtain ⟨j, ⟨hj0, hj1⟩, h⟩ := (mem_apseq s n _).mp this
+  omega
+
+
+/-! # Twenty-fifth batch: listed subsets of a progression are strictly increasing, hence duplicate-free -/
+
+theorem combs_apseq_elem_pairwise (s n0 k i : ℤ) (h : 0 ≤ i ∧ i < clen (combs (apseq s n0) k)) :
+    (cget (combs (apseq s n0) k) i).Pairwise (· < ·) := by
+  have hm : cget (combs (apseq s n0) k) i ∈ combsLex k.toNat (apseq s n0) :=
+    cget_mem (combs (apseq s n0) k) i h
+  rw [mem_combsLex] at hm
+  exact (apseq_pairwise_lt s n0).sublist hm.1
+
+theorem iget_eq_getElem (F : ISeq) (p : ℤ) (h0 : 0 ≤ p) (h1 : p < ilen F) :
+    iget F p = F[p.toNat]'(by unfold ilen at h1; omega) := by
+  unfold ilen at h1
+  have hpl : p.toNat < F.length := by omega
+  unfold iget; rw [List.getD_eq_getElem?_getD, List.getElem?_eq_getElem hpl]; rfl
+
+/-- (g) `And(0 <= i, i < clen(C), 0 <= p, p < q, q < ilen(cget(C, i))) -> iget(cget(C, i), p) < iget(cget(C, i), q)`,
+    `C = combs(apseq(s, n0), k)` (no guard on `k`) -/
+theorem combs_apseq_lt (s n0 k i p q : ℤ) :
+    (0 ≤ i ∧ i < clen (combs (apseq s n0) k) ∧ 0 ≤ p ∧ p < q ∧
+      q < ilen (cget (combs (apseq s n0) k) i)) →
+    iget (cget (combs (apseq s n0) k) i) p < iget (cget (combs (apseq s n0) k) i) q := by
+  rintro ⟨hi0, hi1, hp0, hpq, hq⟩
+  have hpw := combs_apseq_elem_pairwise s n0 k i ⟨hi0, hi1⟩
+  generalize cget (combs (apseq s n0) k) i = F at hpw hq ⊢
+  rw [iget_eq_getElem F p hp0 (by omega), iget_eq_getElem F q (by omega) hq]
+  unfold ilen at hq
+  exact (List.pairwise_iff_getElem.mp hpw) p.toNat q.toNat (by omega) (by omega) (by omega)
+
+/-- (f) `And(0 <= i, i < clen(C), 0 <= n, n < ilen(cget(C, i))) ->
+    Not(imemp(cget(C, i), n, iget(cget(C, i), n)))`, `C = combs(apseq(s, n0), k)` -/
+theorem combs_apseq_fresh (s n0 k i n : ℤ) :
+    (0 ≤ i ∧ i < clen (combs (apseq s n0) k) ∧ 0 ≤ n ∧ n < ilen (cget (combs (apseq s n0) k) i)) →
+    ¬ imemp (cget (combs (apseq s n0) k) i) n (iget (cget (combs (apseq s n0) k) i) n) := by
+  rintro ⟨hi0, hi1, hn0, hn1⟩ hmem
+  have hpw := combs_apseq_elem_pairwise s n0 k i ⟨hi0, hi1⟩
+  generalize cget (combs (apseq s n0) k) i = F at hpw hn1 hmem
+  unfold imemp at hmem
+  rw [iget_eq_getElem F n hn0 hn1] at hmem
+  unfold ilen at hn1
+  obtain ⟨m, hm, heq⟩ := List.mem_take_iff_getElem.mp hmem
+  have hm' : m < n.toNat ∧ m < F.length := by simpa using hm
+  have := (List.pairwise_iff_getElem.mp hpw) m n.toNat hm'.2 (by omega) hm'.1
+  omega
+
 end CnfSem
